@@ -260,11 +260,16 @@ fn interleave(rng: &mut Rng, items: &[BItem]) -> Vec<BItem> {
     out
 }
 
-fn unrelated_type(rng: &mut Rng, name: &str) -> Vec<BItem> {
-    let (decl, imp) = match rng.below(3) {
+fn unrelated_type(shape: usize, name: &str) -> Vec<BItem> {
+    let (decl, imp) = match shape % 7 {
         0 => (format!("#[diplomat::opaque] pub struct {name};"), format!("impl {name} {{ pub fn make() -> Box<{name}> {{ unimplemented!() }} pub fn val(&self) -> u8 {{ unimplemented!() }} }}")),
         1 => (format!("pub enum {name} {{ First, Second }}"), format!("impl {name} {{ pub fn of(v: u8) -> {name} {{ unimplemented!() }} }}")),
-        _ => (format!("pub struct {name} {{ pub a: u8, pub b: f64 }}"), format!("impl {name} {{ pub fn make(a: u8) -> {name} {{ unimplemented!() }} }}")),
+        2 => (format!("pub struct {name} {{ pub a: u8, pub b: f64 }}"), format!("impl {name} {{ pub fn make(a: u8) -> {name} {{ unimplemented!() }} }}")),
+        // shapes that make a backend create per-file helper state: callbacks, slices, strings, results, write
+        3 => (format!("#[diplomat::opaque] pub struct {name};"), format!("impl {name} {{ pub fn run(cb: impl Fn(u8) -> u8) -> u8 {{ unimplemented!() }} pub fn each(a: i32, f: impl Fn(i32, u16)) {{ unimplemented!() }} }}")),
+        4 => (format!("#[diplomat::opaque] pub struct {name};"), format!("impl {name} {{ pub fn sum(&self, xs: &[f64], names: &DiplomatStr) -> Result<u8, ()> {{ unimplemented!() }} pub fn show(&self, w: &mut DiplomatWrite) {{ unimplemented!() }} }}")),
+        5 => (format!("pub struct {name} {{ pub a: i64, pub flag: bool }}"), format!("impl {name} {{ pub fn call(self, cb: impl Fn(i64) -> bool) -> bool {{ unimplemented!() }} pub fn maybe(self) -> Option<u32> {{ unimplemented!() }} }}")),
+        _ => (format!("pub enum {name} {{ First = 3, Second = 9 }}"), format!("impl {name} {{ pub fn apply(self, cb: impl Fn(u16)) {{ unimplemented!() }} pub fn text<'a>(self, s: &'a DiplomatStr16) -> &'a DiplomatStr16 {{ unimplemented!() }} }}")),
     };
     vec![BItem { about: Some(name.into()), text: decl }, BItem { about: Some(name.into()), text: imp }]
 }
@@ -276,6 +281,9 @@ fn noise(rng: &mut Rng, type_names: &[String]) -> (String, String) {
         "use std::collections::HashMap;\npub fn free_function(x: u8) -> u8 { x }\n".to_string(),
         format!("mod not_a_bridge {{\n    pub struct {same} {{ pub z: u64 }}\n    #[allow(dead_code)]\n    pub enum Other {{ A, B }}\n    impl Other {{ pub fn f(&self) {{}} }}\n}}\n"),
         "#[derive(Debug)]\npub enum TopLevelEnum { A, B }\npub const LIMIT: usize = 10;\n".to_string(),
+        // modules of *other* tools whose attribute merely ends in `bridge`
+        "#[cxx::bridge]\nmod cxxside {\n    pub struct CxxThing { pub a: u8 }\n    pub enum CxxMode { A, B }\n    impl CxxThing { pub fn get(&self) -> u8 { 0 } }\n}\n".to_string(),
+        format!("#[notdiplomat::bridge]\nmod lookalike {{\n    pub struct {same} {{ pub z: u64 }}\n    pub enum LookalikeEnum {{ A }}\n}}\n#[uniffi::bridge(diplomat)]\nmod another {{ pub struct AnotherThing {{ pub q: i8 }} }}\n"),
     ];
     let after = [
         "#[cfg(test)]\nmod tests {\n    #[test]\n    fn t() { assert_eq!(1, 1); }\n}\n".to_string(),
@@ -296,6 +304,9 @@ fn gen(src: &str, target: &str) -> Result<BTreeMap<String, String>, String> {
     }
     if !o.lowering_errors.is_empty() {
         return Err(format!("lowering {:?}", o.lowering_errors));
+    }
+    if !o.backend_errors.is_empty() {
+        return Err(format!("backend-errors {:?}", o.backend_errors));
     }
     Ok(o.files)
 }
@@ -328,9 +339,27 @@ fn first_diff_line(a: &str, b: &str) -> String {
 }
 
 /// child mode: `vharness C14-child <target> <lib.rs>` prints a digest of every generated file
+fn gen_cfg(src: &str, target: &str, pairs: &[String]) -> Result<BTreeMap<String, String>, String> {
+    let mut cfg = tool::default_config();
+    for p in pairs {
+        if let Some((k, v)) = p.split_once('=') {
+            cfg.set(k, toml::Value::String(v.to_string()));
+        }
+    }
+    let o = tool::run_backend_cfg(src, target, cfg);
+    if let Some(p) = o.panic {
+        return Err(format!("panic {p}"));
+    }
+    if !o.lowering_errors.is_empty() {
+        return Err(format!("lowering {:?}", o.lowering_errors));
+    }
+    Ok(o.files)
+}
+
 pub fn child(args: &[String]) {
     let src = std::fs::read_to_string(&args[1]).expect("read");
-    match gen(&src, &args[0]) {
+    let r = if args.len() > 2 { gen_cfg(&src, &args[0], &args[2..]) } else { gen(&src, &args[0]) };
+    match r {
         Ok(files) => {
             for (k, v) in files {
                 println!("{k}\t{:016x}", fnv(&v));
@@ -492,6 +521,35 @@ pub fn main(args: &[String]) {
             }
             rep.count("meta:fresh-process-runs");
         }
+        // T1'' the same setting given under several spellings of the language scope: fresh processes must agree
+        if thorough || i % 2 == 0 {
+            let pairs: Vec<String> = match target {
+                "nanobind" => vec!["lib_name=shared", "nanobind.lib_name=alpha", "py_nanobind.lib_name=beta", "py-nanobind.lib_name=gamma", "pynanobind.lib_name=delta"],
+                "kotlin" => vec!["lib_name=shared", "kotlin.lib_name=alpha", "Kotlin.lib_name=beta", "kt.lib_name=gamma", "kotlin.domain=dev.a", "Kotlin.domain=dev.b"],
+                "js" => vec!["lib_name=shared", "js.lib_name=alpha", "javascript.lib_name=beta", "ts.lib_name=gamma"],
+                "demo_gen" => vec!["lib_name=shared", "demo_gen.lib_name=alpha", "demo-gen.lib_name=beta", "demogen.lib_name=gamma"],
+                _ => vec!["lib_name=shared", "c.lib_name=alpha", "cpp.lib_name=beta", "dart.lib_name=gamma"],
+            }.into_iter().map(String::from).collect();
+            let p = work.join(format!("m{i}.rs"));
+            std::fs::write(&p, &base_src).unwrap();
+            let mut first: Option<String> = None;
+            for _ in 0..(if thorough { 8 } else { 6 }) {
+                rep.oracle_runs += 1;
+                let (ok, out, err) = util::run(std::process::Command::new(&exe).arg("C14-child").arg(target).arg(&p).args(&pairs));
+                let out: String = out.lines().filter(|l| l.contains('\t')).map(|l| format!("{l}\n")).collect();
+                match &first {
+                    None => first = Some(out),
+                    Some(f) => {
+                        if !ok || *f != out {
+                            let d: Vec<String> = out.lines().filter(|l| !f.contains(*l)).map(|l| format!("{}: digest differs or file is new", l.split('\t').next().unwrap())).collect();
+                            fail(&mut rep, "fresh processes disagree when one setting is given under several spellings of the language scope", &format!("// config: {}\n{base_src}", pairs.join(" ")), if d.is_empty() { vec![format!("child failed or file set differs: {err}")] } else { d }, None);
+                            break;
+                        }
+                    }
+                }
+            }
+            rep.count("meta:fresh-process-config-runs");
+        }
         // T2 interleaving
         for _ in 0..2 {
             let perm = interleave(&mut rng, &items);
@@ -508,9 +566,9 @@ pub fn main(args: &[String]) {
             }
         }
         // T3 unrelated type
-        for fresh in ["AaFresh", "MmFresh", "ZzFresh"] {
+        for (fresh, shape) in ["AaFresh", "MmFresh", "ZzFresh"].into_iter().flat_map(|f| (0..7).map(move |s| (f, s))) {
             let mut with = items.clone();
-            let extra = unrelated_type(&mut rng, fresh);
+            let extra = unrelated_type(shape, fresh);
             let pos = rng.below(with.len() + 1);
             for (j, e) in extra.into_iter().enumerate() {
                 with.insert(pos + j, e);
